@@ -98,6 +98,10 @@ def run(chk):
             # two thirds non-elevated callers, with rules that often grant them
             if rng.chance(2, 3):
                 case["caller"] = callers.caller(rng.pick([1000, 1001, 1002]), case["caller"]["proc"], False)
+                if rng.chance(1, 5):
+                    # what the kernel side writes when it could not tell (an error status), or any value that is not 1
+                    case["is_admin_raw"] = rng.pick([-1, 2, 7, -2147483648])
+                    chk.count("is_admin_neither_0_nor_1")
             runner.run_case(case)
             if i % 10 == 3:
                 # the same process first elevated, then not (a privilege drop, or its pid re-used): elevation is per connection
